@@ -7,6 +7,11 @@ V = Path(__file__).resolve().parent.parent
 TECH = "TLA+ specification model-checked with TLC, bound to the implementation by trace validation (TLC checks recorded implementation traces against the abstract spec) and replay of TLC-generated cases/behaviours"
 
 CLAIMS = {
+    "C10": {
+        "text": "Specification Fields: a callsite declaration (macro kind, level, declared fields in order with name form / value form / type / value slot, format-string message, later Span::record calls) determines the ONLY visit sequence (message first, then the present fields in declaration order, each once, through the documented typed route TypeRoute with exactly the canonical / Display / Debug text of the supplied value) and the ONLY evaluation counts (once when enabled, none when disabled by Interest::never, enabled()=false or the max-level hint; shorthand values bound outside the macro always once) the property allows; MCFields is the macro expansion as a step machine (three gates, element-by-element array construction, ValueSet::record) checked by TLC against it for every callsite shape of <= 2 fields x 4 value forms x 4 message forms x 4 collector modes. Binding: a generated corpus of 2241 real macro callsites (span!, event!, the ten level shorthands, enabled!; name forms ident / dotted / string literal / r# / {CONST}; value forms =, =%, =?, Empty, shorthand, %shorthand, ?shorthand; positions alone / before a field / before a message / braced; prefixes name: / target: / parent:; 53 value types incl. all integer widths, NonZero, Wrapping, floats, strings, bytes, the four dyn Error flavours, Box, references, display()/debug() wrappers; later Span::record of declared and undeclared names) is compiled against /repo and run under four collectors with boundary and random value assignments; a typed recording Visit logs (name, method, exact text), counters log every evaluation; TLC validates every run against Fields.",
+        "note": "254 generated forms are rejected by the macros at compile time (listed with the compiler message in harness/vh/corpus/macros_skip.json) and are not part of the corpus. Built without tracing's `log` feature; compile-time max_level_* features are not exercised. Display/Debug texts of sigil fields use an alphabet whose Rust formatting is known to the generator; typed fields use arbitrary Unicode / bit patterns.",
+        "ref": "4 (C10)",
+    },
     "C11": {
         "text": "Specification Directives: a filter is a sequence of [target prefix, span name, field, value, level] directives; A states the property declaratively (most specific matching static directive decides; a span-scoped directive contributes its level while a span matching it by target, name, field presence and recorded value is entered, and for that span itself) and M is the code's mechanism (ordered directive sets with replacement, scope stack of levels pushed on enter / popped on exit, by_id table, statics / dynamics max-level gates and the published hint). TLC explores every filter of <= 2 directives from a 36-directive universe x {Targets, EnvFilter} x every well-nested script over 2 span handles and checks in every reachable state that M's decision for all 40 event metadata equals A's, span decisions are allowed ones, would_enable equals actual filtering, Targets == EnvFilter on static filters, the stack equals the entered tracked spans, and the hint hides nothing (thorough: larger span universe and a negative control with the seeded design error). Binding: 500/6000 directive strings (0-5 directives, level spellings in any case / digits / bare levels / bare targets / empty level / empty segments / duplicates) are parsed by the real Targets and EnvFilter, installed as global layer and as per-layer filter, plus the re-parsed Display output of each; one script of real macro callsites (spans with names and field values, record, enter, exit, close, 40-event probes) runs against each of the 6 stacks and TLC validates every reply, the would_enable table and the Display round trips against A.",
         "note": "Where the property text leaves room the spec allows a set of answers for SPAN metadata (field-name directives applied to spans; whether a span matching a span-scoped directive is enabled above that directive's level); events have exactly one allowed answer. Assumptions: one field per directive, a field recorded at most once and not while entered, well-nested enter/exit on one thread. F21, F22, F25 were found here and fixed; F23 / F24 (Targets taking bracket syntax for a target name; comma inside braces) are reported as KNOWN-FINDING.",
